@@ -36,6 +36,7 @@ class Check:
         self.samples = []
         self.violations = []     # dicts: sig, clause, detail
         self.known_hits = {}     # finding id -> count
+        self.sig_counts = {}
         self.extra = {}
         self.assumptions = []
         self.bounds = {}
@@ -73,7 +74,10 @@ class Check:
                 self.known_hits.setdefault(k["id"], {"what": k.get("what", ""), "n": 0, "example": detail})
                 self.known_hits[k["id"]]["n"] += 1
                 return False
-        if len(self.violations) < 50:
+        self.sig_counts[sig] = self.sig_counts.get(sig, 0) + 1
+        if self.sig_counts[sig] > 3:
+            return True
+        if len(self.violations) < 60:
             self.violations.append(dict(sig=sig, clause=clause, detail=detail))
         else:
             self.extra["violations_truncated"] = self.extra.get("violations_truncated", 0) + 1
@@ -93,6 +97,8 @@ class Check:
                    spec_behaviours_replayed_into_code=self.s2c, code_records_validated_by_spec=self.c2s,
                    samples=self.samples or ["(no sample recorded)"], bounds=self.bounds, coverage_actions=self.actions,
                    known_findings_hit={k: v["n"] for k, v in self.known_hits.items()})
+        if self.sig_counts:
+            cov["violation_signatures"] = self.sig_counts
         cov.update(self.extra)
         ev = dict(property_id=self.pid, tier=self.tier, seed=self.seed, level=level, coverage=cov,
                   assumptions=self.assumptions, wall_s=round(time.time() - self.t0, 2), violations=len(self.violations))
@@ -103,6 +109,7 @@ class Check:
         if self.violations:
             for v in self.violations[:10]:
                 print("  mismatch clause=%s sig=%s detail=%s" % (v["clause"], v["sig"], json.dumps(v["detail"], default=_js)[:600]))
+            print("  violation signatures: %s" % json.dumps(self.sig_counts))
             print("VIOLATION property=%s replay=%s" % (self.pid, replay_path))
             return 1
         print("OK property=%s tier=%s states=%d transitions=%d s2c=%d c2s=%d wall=%.1fs"
